@@ -52,7 +52,8 @@ CHECKS["C06"] = {
             "one shard per series; union equals batch; values untouched).",
     "design_ref": "6/C06",
     "note": "the hash itself is opaque: only consistency of the observed routing is checked; end-to-end 'same aggregator, once per flush' "
-            "is asserted on C01's traces by the same monitor operator PReport",
+            "is asserted on C01's traces by the same monitor operator PReport; two recorded findings (known_findings.json: distinct "
+            "(tag set, source) pairs that spell the same tags key string are one series to MetricMap) are reported as KNOWN-FINDING lines",
     "technique": "TLC trace validation of recorded Split/dispatch results against a P-level partition monitor",
 }
 CHECKS["C07"] = {
